@@ -1,5 +1,6 @@
 import Sismic.Proofs.C09
 import Sismic.Proofs.Sim
+import Sismic.Proofs.PyBlind
 /-!
 # Property C09 — contract checking is transparent
 
@@ -104,5 +105,22 @@ theorem ignoring_simulates_checking_run (eqv : σ → σ → Prop) (hE : Blind e
     obtain ⟨rs2, h2, hs'⟩ := ignoring_simulates_checking env eqv hE hig _ _ rs₂ _ _ hs hx
     obtain ⟨rs₂', hr, hs''⟩ := ih rs2 hs'
     exact ⟨rs₂', RunOK.cons h2 hr, hs''⟩
+
+/-- **… and the modelled `PythonEvaluator` satisfies the hypothesis**: guards and executed code read
+    the context variables only, the frozen `__old__` contexts are read by postconditions and
+    invariants alone.  So for the evaluator the tie runs, the transparency theorem holds
+    unconditionally, with "contexts equal as sets of variables" as the relation. -/
+theorem python_evaluator_transparent {ω : Type} (env : Env PyCtx ω) (hE : env.E = pyEvaluator)
+    (hig : env.ignoreContract = false) (clocks : List Int) (rs₁ rs₁' : RS PyCtx ω)
+    (out : List (Option MacroStep)) (hrun : RunOK env clocks rs₁ out rs₁') :
+    ∀ rs₂, Sim sameVars rs₁ rs₂ →
+      ∃ rs₂', RunOK env.ignoring clocks rs₂ out rs₂' ∧ Sim sameVars rs₁' rs₂' ∧
+        rs₂'.st.ctx.vars = rs₁'.st.ctx.vars :=  by
+  intro rs₂ hs
+  obtain ⟨rs₂', h1, h2⟩ := ignoring_simulates_checking_run env sameVars (hE ▸ pyEvaluator_blind) hig
+    clocks rs₁ rs₁' out hrun rs₂ hs
+  refine ⟨rs₂', h1, h2, ?_⟩
+  obtain ⟨x, rfl, hx⟩ := h2
+  exact hx.1.symm
 
 end Sismic.C09
